@@ -269,7 +269,7 @@ PROPS["C07"] = dict(
           "(every 5th case, always in thorough) group key and all public shares on one polynomial of degree <= t by Lagrange interpolation in G2 with the oracle, and t+1 honest participants reconstruct a signature valid under the group key. "
           "Non-trivial = a Byzantine participant performed a non-honest action and the delivery order was not FIFO; distinct by draw-record hash."),
     assumptions=BLS_ASSUME[:1] + ["the assumptions of the statement: round-synchronous delivery, reliable broadcast, at most t Byzantine participants", "Joint-Feldman: the disqualified set of a participant is read from its Disqualify callbacks; single-dealer protocol: from the End verdict"],
-    jobs=[J("TestC07_Agreement", 1000, 4000, shards=16), GF("TestC07_Agreement", 150, procs=16)],
+    jobs=[J("TestC07_Agreement", 1500, 4000, shards=16), GF("TestC07_Agreement", 150, procs=16)],
 )
 
 PROPS["C08"] = dict(
